@@ -49,7 +49,7 @@ Definition show_spec (o : sres) : list str :=
 
 (** scope classes: S stray count, Z zero count, W continue in a loop condition, M malformed *)
 Definition show_reasons (l : list reason) : str :=
-  flat_map (fun r => match r with RStray => lit "S" | RZero => lit "Z" | RContCond => lit "W" | RMalformed => lit "M" end) l.
+  flat_map (fun r => match r with RStray => lit "S" | RZero => lit "Z" | RContCond => lit "W" | RMalformed => lit "M" | RPipe => lit "P" end) l.
 
 Definition entry_cf (a : list str) : list str :=
   match a with
